@@ -24,7 +24,9 @@ def run(prop, tier, seed):
     with core.Scratch() as scratch:
         pst = pipeline.tlc_prop_stage(props, scratch, 2400)
         rst = pipeline.replay_stage(gens, "dependscls", {"tolerate": [e["tag"] for e in core.KnownFindings(prop).open]}, scratch, 2400, chunk=50)
-    return pipeline.finish(prop, tier, seed, t0, [pst, rst], exhaustive=True,
+        fst = pipeline.replay_stage([{"module": "MC_DependsFn.tla", "cfg": "MC_DependsFn_gen.cfg", "workers": 2}], "dependsfn", {}, scratch, 600,
+                                    name="replay_function_form", chunk=2)
+    return pipeline.finish(prop, tier, seed, t0, [pst, rst, fst], exhaustive=True,
                            rule="one case = one hierarchy (chain of 3 / diamond) x declarations of two dependent methods per class x instantiated class, run through a 10-operation probe program (same-value set, changing sets, Parameter-attribute change, updates and batches changing several / one / no dependency); every case exercises overrides or inheritance, so all are non-trivial",
                            assumptions=["dependency specs: parameter values, 'x:bounds', another method's name; on_init; watch='queued'",
                                         "a method named as a dependency is decorated wherever it is resolved (an undecorated dependency means 'all parameters': outside the domain)",
